@@ -165,11 +165,14 @@ func c13CheckEmitted(c c13Emit) engine.Result {
 				return
 			}
 			for _, tier := range []uint16{0xFFF, 0x123} {
-				s.SetTier(tier)
-				enc := s.UpdateData()
-				res.Evals++
-				if ref.CRC32MPEG2(enc) != 0 {
-					res.Failf("emitted-section|splice_info_section|crc-residue", "seed %d tier %#x: CRC of the encoded section is %08x, want 0", c.Seed, tier, ref.CRC32MPEG2(enc))
+				for _, stuffing := range []uint{0, 1, 4} {
+					s.SetTier(tier)
+					s.SetAlignmentStuffing(stuffing)
+					enc := s.UpdateData()
+					res.Evals++
+					if ref.CRC32MPEG2(enc) != 0 {
+						res.Failf("emitted-section|splice_info_section|crc-residue", "seed %d tier %#x alignment stuffing %d: CRC of the encoded section is %08x, want 0", c.Seed, tier, stuffing, ref.CRC32MPEG2(enc))
+					}
 				}
 			}
 		case "pmt":
@@ -283,7 +286,7 @@ func init() {
 			},
 			&engine.Enum[c13Emit]{
 				Name: "emitted-sections",
-				Rule: "every captured/constructed SCTE-35 section of the seed pool decoded and re-encoded with two tier values, and every PMT of the seed pool filtered to each prefix of its PID list under 5 packetisations: the reference CRC of every emitted section must be zero (the exhaustive versions of this clause live in C09 and C14)",
+				Rule: "every captured/constructed SCTE-35 section of the seed pool decoded and re-encoded with two tier values x alignment stuffing {0,1,4}, and every PMT of the seed pool filtered to each prefix of its PID list under 5 packetisations: the reference CRC of every emitted section must be zero (the exhaustive versions of this clause live in C09 and C14)",
 				Gen: func(r *engine.Run, emit func(c13Emit)) {
 					for i := range c05SeedPools["scte35"] {
 						emit(c13Emit{"scte35", i})
